@@ -138,17 +138,27 @@ def run(ctx):
     )
     # --------------------------------------------------------------- numeric
     pod = index.func("cdd.shared.defaults_utils._parse_out_default_and_doc")
+    # the classification may live in _parse_out_default_and_doc itself or in a private helper it calls
+    from ..core import RefGraph
+    from ..defuse import expand_aliases
+    from ..region import Region
+
     int_tests, float_sites = [], []
-    for n in iter_own(pod.node):
+    for g, n in Region(index, RefGraph(index), pod).nodes():
         if isinstance(n, ast.If):
-            assigns_int = any(isinstance(s, ast.Assign) and norm(s.value) == "int(default)" for s in n.body)
-            if assigns_int:
-                int_tests.append(n)
-        if isinstance(n, ast.Call) and norm(n.func) == "float" and n.args and norm(n.args[0]) == "default":
-            float_sites.append(n)
+            yields_int = any(
+                isinstance(s, (ast.Assign, ast.Return)) and isinstance(s.value, ast.Call) and norm(s.value.func) == "int" and len(s.value.args) == 1 and isinstance(s.value.args[0], ast.Name)
+                for s in n.body
+            )
+            if yields_int:
+                int_tests.append((g, n))
+        if isinstance(n, ast.Call) and norm(n.func) == "float" and len(n.args) == 1 and isinstance(n.args[0], ast.Name):
+            float_sites.append((g, n))
     ctx.need(len(int_tests) == 1 and float_sites, "the int / float classification of an untyped default vanished")
-    it = int_tests[0]
-    consts = {c.value for c in ast.walk(it.test) if isinstance(c, ast.Constant) and isinstance(c.value, str)}
+    pod, it = int_tests[0]
+    float_sites = [n for g, n in float_sites if g is pod]
+    ctx.need(float_sites, "the int test and the float() fallback are no longer in one function")
+    consts = {c.value for c in ast.walk(expand_aliases(pod, it.test)) if isinstance(c, ast.Constant) and isinstance(c.value, str)}
     sign_aware = "-" in consts or any("-" in c for c in consts)
     ctx.ob(
         "C01.numeric",
